@@ -206,9 +206,62 @@ pub fn run(cfg: &Config) -> i32 {
             }
         }
     }
+    // option letters beyond the layout table: the library's own types accept more options than the
+    // documented layouts list (e.g. 57C in MT191); every multi-option position of the maximal message
+    // of each type gets every letter A-Z with a content in that option's documented format - whatever
+    // the library accepts is in scope of the JSON equalities
+    let mut letter_msgs: Vec<(String, String)> = Vec::new();
+    {
+        let specs = crate::spec::fieldfmt::specs();
+        for lay in &layouts {
+            let Some((pre, post)) = envelope.get(lay.mt) else { continue };
+            let mut r0 = Rng::new(0, &format!("c08-letters:{}", lay.mt), 0);
+            let mut g0 = Gen { r: &mut r0, counter: 11, mt: lay.mt, opt: GenOptions { optional_per_mille: 1000, max_repeat: 1, max_seq: 1, maximal: true, minimal: false }, force_option: None, force_include: None };
+            let gf = g0.message(lay);
+            let mut toks: Vec<Token> = Vec::new();
+            let mut ok = true;
+            for f in &gf {
+                match crate::spec::canonical(&f.tag, &f.content) {
+                    crate::spec::Canon::Ok(c) => toks.push(Token { tag: f.tag.clone(), content: c }),
+                    _ => ok = false,
+                }
+            }
+            if !ok {
+                continue;
+            }
+            if lay.mt == "204" && toks.len() >= 2 && toks[1].tag == "19" {
+                toks.swap(0, 1);
+            }
+            for (i, t) in toks.iter().enumerate() {
+                let base = &t.tag[..2];
+                if !matches!(base, "25" | "32" | "50" | "52" | "53" | "54" | "55" | "56" | "57" | "58" | "59" | "60" | "62" | "11" | "21" | "23" | "28" | "34" | "71" | "77" | "90") {
+                    continue;
+                }
+                for lt in "ABCDEFGHIJKLMNOPQRSTUVWXYZ".chars() {
+                    let tag = format!("{base}{lt}");
+                    if tag == t.tag {
+                        continue;
+                    }
+                    let Some(spec) = specs.iter().find(|s| s.ty == format!("Field{tag}")) else { continue };
+                    let mut rr = Rng::new(0, "c08-letters-cand", i as u64);
+                    let Some(c) = crate::spec::fieldfmt::candidates(spec, 2, &mut rr, 0).into_iter().find(|c| c.class == "canonical") else { continue };
+                    let mut fs = toks.clone();
+                    fs[i] = Token { tag, content: c.content };
+                    letter_msgs.push((lay.mt.to_string(), format!("{pre}\n{}\n{post}", tok::render(&fs, false, false))));
+                }
+            }
+        }
+    }
+    let nletters = letter_msgs.len() as u64;
     let nspec = spec_cands.len() as u64;
-    let total_n = n_gen + ncorpus + nfield + nspec;
+    let total_n = n_gen + ncorpus + nfield + nspec + nletters;
     let total = par_for(cfg, total_n, |i, l| {
+        if i >= n_gen + ncorpus + nfield + nspec {
+            let (mt, text) = &letter_msgs[(i - n_gen - ncorpus - nfield - nspec) as usize];
+            let case = Case::Message { mt: mt.clone(), text: text.clone(), written: vec![], no_scan: true };
+            judge(cfg, &case, l, &format!("MT{mt}/other-letter"));
+            return;
+        }
         if i >= n_gen + ncorpus + nfield {
             let (ty, content) = &spec_cands[(i - n_gen - ncorpus - nfield) as usize];
             let case = Case::Field { ty: ty.clone(), input: content.clone(), variant: None };
